@@ -318,7 +318,7 @@ fn raw_summary(raw: &Value) -> Value {
 fn write_and_observe(tree: &ClassFile) -> Result<Value> {
 	let mut expected = duke_to_facts(tree).map_err(|e| anyhow!("projection of the tree: {e}"))?;
 	let mut bytes: Vec<u8> = Vec::new();
-	if let Err(e) = duke::write_class(&mut bytes, tree) {
+	if let Err(e) = duke::write_class(&mut super::FragW::new(&mut bytes), tree) {
 		return Ok(json!({"res": "err", "msg": format!("{e:#}").chars().take(300).collect::<String>()}));
 	}
 	// debugging aid: C02_DUMP=<dir> keeps the written class files
